@@ -16,6 +16,7 @@ pub struct Search {
     pub samples: Vec<String>,
     pub deadline: Instant,
     pub classes: std::collections::BTreeMap<String, u64>,
+    pub per_predicate: std::collections::BTreeMap<String, u64>,
 }
 
 fn jstr(s: &str) -> String {
@@ -53,7 +54,9 @@ impl Search {
             return true;
         }
         self.findings += 1;
-        if self.findings <= 50 {
+        let seen = self.per_predicate.entry(predicate.to_string()).or_insert(0);
+        *seen += 1;
+        if *seen <= 20 {
             writeln!(
                 self.out,
                 "{{\"kind\":\"finding\",\"oracle\":{},\"predicate\":{},\"what\":{},\"request\":{},\"detail\":{}}}",
@@ -93,6 +96,7 @@ pub fn search(pid: &str, seed: u64, budget_s: u64, out: &str) {
         samples: vec![],
         deadline: Instant::now() + Duration::from_secs(budget_s),
         classes: Default::default(),
+        per_predicate: Default::default(),
     };
     let mut rng = Rng::new(seed ^ hash(pid));
     match pid {
@@ -100,6 +104,9 @@ pub fn search(pid: &str, seed: u64, budget_s: u64, out: &str) {
         "C17" => c17(&mut s, &mut rng),
         "C14" => c14(&mut s, &mut rng),
         "C12" => c12(&mut s, &mut rng),
+        "C01" => c01(&mut s, &mut rng),
+        "C02" => c02(&mut s, &mut rng),
+        "C04" => c04(&mut s, &mut rng),
         "C13" => c13(&mut s, &mut rng),
         "C05" | "C06" | "C07" | "C18" | "C19" | "C20" | "C08" => opt_search(pid, &mut s, &mut rng),
         "C15" => c15(&mut s, &mut rng),
@@ -443,5 +450,226 @@ fn c13(s: &mut Search, rng: &mut Rng) {
         );
         s.class(if like { "like" } else { "unlike" });
         s.run("Lj.closedForm", &req, if like { "c13_like" } else { "c13_unlike_particles" }, "pair energy deviates from the shifted truncated 12-6 law / symmetry / invariance", true);
+    }
+}
+
+/// hard states in the region where overlap detection is delicate: dense, skewed, elongated cells,
+/// copies near opposite faces, bound-clamped coordinates
+fn gen_hard_state_adversarial(rng: &mut Rng) -> String {
+    let pi = std::f64::consts::PI;
+    let shape = match rng.below(8) {
+        0..=3 => format!("poly {}", *rng.pick(&[3usize, 4, 5, 6, 8])),
+        4 | 5 => "circle".to_string(),
+        _ => crate::gen::gen_trimer(rng, "trimer"),
+    };
+    let g = *rng.pick(&crate::gen::GROUPS);
+    let nn: f64 = match g { "p1" => 1.0, "p2" | "p1m1" | "p1g1" => 2.0, _ => 4.0 };
+    let mono = g == "p1" || g == "p2";
+    let ratio = match rng.below(4) { 0 => rng.range(0.1, 0.3), 1 => rng.range(0.3, 0.6), 2 => 1.0, _ => rng.range(0.5, 1.0) };
+    let angle = if mono { match rng.below(4) { 0 => pi / 6.0, 1 => rng.range(pi / 6.0, pi / 3.0), 2 => pi / 2.0, _ => rng.range(pi / 3.0, pi / 2.0) } } else { pi / 2.0 };
+    // area per copy a little above the shape's area: length^2 * ratio * sin = nn * A0 * slack
+    let a0 = rng.range(2.0, 4.5);
+    let length = (nn * a0 * rng.range(0.8, 2.5) / (ratio * angle.sin())).sqrt();
+    let th = match rng.below(5) { 0 => 0.0, 1 => 2.0 * pi, 2 => *rng.pick(&[pi / 4.0, pi / 2.0, pi, pi / 3.0, pi / 6.0]), _ => rng.range(0.0, 2.0 * pi) };
+    format!(
+        "hard {} {} {} {} {} 1 {} {} {}",
+        shape, g, fhex(length), fhex(ratio), fhex(angle),
+        fhex(crate::gen::gen_site_coord(rng)), fhex(crate::gen::gen_site_coord(rng)), fhex(th)
+    )
+}
+
+/// Geometry-level rejection sampling (no crate calls): regular polygons / unit discs in a cell
+/// whose ONLY overlapping image pairs are at lattice index distance >= 2 — exactly the states on
+/// which a too-small shell count is fooled. Returns a state description or None.
+fn far_overlap_state(rng: &mut Rng) -> Option<String> {
+    let pi = std::f64::consts::PI;
+    let g = *rng.pick(&["p2", "p2", "p1", "p2mg", "p2gg", "p1g1", "p1m1", "p2mm"]);
+    let (_fam, ops, _c) = crate::oracle::reference(g)?;
+    let nn = ops.len() as f64;
+    let mono = g == "p1" || g == "p2";
+    let sides = *rng.pick(&[0usize, 3, 4, 4, 6]); // 0 = disc
+    let shape_area = if sides == 0 { pi } else { 0.5 * sides as f64 * (2.0 * pi / sides as f64).sin() };
+    let ratio = rng.range(0.3, 1.0);
+    let angle = if mono { rng.range(pi / 6.0, pi / 2.0) } else { pi / 2.0 };
+    let area_per = shape_area * rng.range(1.0, 1.6);
+    let length = (nn * area_per / (ratio * angle.sin())).sqrt();
+    let (x, y) = (crate::gen::gen_site_coord(rng), crate::gen::gen_site_coord(rng));
+    let th = match rng.below(4) { 0 => 0.0, 1 => *rng.pick(&[pi / 4.0, pi / 2.0, pi / 3.0, pi / 6.0]), _ => rng.range(0.0, 2.0 * pi) };
+    let a = (length, 0.0);
+    let b = (length * ratio * angle.cos(), length * ratio * angle.sin());
+    let wrapf = |u: f64| {
+        let w = u - (u + 0.5).floor();
+        if w >= 0.5 { w - 1.0 } else { w }
+    };
+    let (sn, cs) = th.sin_cos();
+    // vertices of the shape as from_radial builds them: (sin(k dθ), cos(k dθ))
+    let base: Vec<(f64, f64)> = (0..sides).map(|k| { let t = k as f64 * 2.0 * pi / sides as f64; (t.sin(), t.cos()) }).collect();
+    let copies: Vec<((f64, f64), Vec<(f64, f64)>)> = ops
+        .iter()
+        .map(|o| {
+            let fx = wrapf(o[0] * x + o[1] * y + o[4]);
+            let fy = wrapf(o[2] * x + o[3] * y + o[5]);
+            let pos = (fx * a.0 + fy * b.0, fx * a.1 + fy * b.1);
+            let lin = [o[0] * cs + o[1] * sn, -o[0] * sn + o[1] * cs, o[2] * cs + o[3] * sn, -o[2] * sn + o[3] * cs];
+            let v = base.iter().map(|p| (lin[0] * p.0 + lin[1] * p.1 + pos.0, lin[2] * p.0 + lin[3] * p.1 + pos.1)).collect();
+            (pos, v)
+        })
+        .collect();
+    let kk = 4i64;
+    let mut min_far: i64 = i64::MAX;
+    for i in 0..copies.len() {
+        for j in 0..copies.len() {
+            for n in -kk..=kk {
+                for m in -kk..=kk {
+                    if i == j && n == 0 && m == 0 {
+                        continue;
+                    }
+                    let sh = (n as f64 * a.0 + m as f64 * b.0, n as f64 * a.1 + m as f64 * b.1);
+                    let q = (copies[j].0 .0 + sh.0, copies[j].0 .1 + sh.1);
+                    let d = ((copies[i].0 .0 - q.0).powi(2) + (copies[i].0 .1 - q.1).powi(2)).sqrt();
+                    if d >= 2.0 {
+                        continue;
+                    }
+                    let overlap = if sides == 0 {
+                        d < 2.0 - 1e-6
+                    } else {
+                        let vq: Vec<(f64, f64)> = copies[j].1.iter().map(|p| (p.0 + sh.0, p.1 + sh.1)).collect();
+                        crate::geom::sat_separation(&copies[i].1, &vq) < -1e-6
+                    };
+                    if overlap {
+                        let idx = n.abs().max(m.abs());
+                        if idx <= 1 {
+                            return None;
+                        }
+                        if idx < min_far {
+                            min_far = idx;
+                        }
+                    }
+                }
+            }
+        }
+    }
+    if min_far == i64::MAX {
+        return None;
+    }
+    let shape = if sides == 0 { "circle".to_string() } else { format!("poly {}", sides) };
+    Some(format!(
+        "hard {} {} {} {} {} 1 {} {} {}",
+        shape, g, fhex(length), fhex(ratio), fhex(angle), fhex(x), fhex(y), fhex(th)
+    ))
+}
+
+fn c01(s: &mut Search, rng: &mut Rng) {
+    let mut n = 0u64;
+    let mut far = 0u64;
+    while s.time_left() && n < 2_000_000 {
+        n += 1;
+        // a burst of cheap geometric samples looking for far-overlap-only states
+        for _ in 0..200 {
+            if let Some(st) = far_overlap_state(rng) {
+                far += 1;
+                let req = format!("oracle c01_overlap {}", st);
+                s.class("far-overlap-only");
+                s.run("Lattice.overlapAnywhere", &req, "c01_overlap", "a scored state has overlapping images", true);
+            }
+        }
+        let _ = far;
+        if n % 8 == 0 {
+            // along optimisation histories: the optimiser searches for holes in the overlap test
+            let mut cfg: Vec<String> = crate::gen::gen_cfg_small(rng).split(' ').map(|x| x.to_string()).collect();
+            cfg[0] = format!("{}", *rng.pick(&[100u64, 200, 400]));
+            cfg[1] = "50".to_string();
+            let req = format!("oracle after_opt overlap {} crystal {}", cfg.join(" "), gen_hard_state_adversarial(rng));
+            s.class("after-optimisation");
+            s.run("Lattice.overlapAnywhere", &req, "c01_overlap", "a scored state has overlapping images", true);
+            continue;
+        }
+        let st = if rng.chance(2, 3) { gen_hard_state_adversarial(rng) } else { crate::gen::gen_state_desc(rng, true) };
+        if !st.starts_with("hard") {
+            continue;
+        }
+        let req = format!("oracle c01_overlap {}", st);
+        let reply_class = "state";
+        s.class(reply_class);
+        s.run("Lattice.overlapAnywhere", &req, "c01_overlap", "a scored state has overlapping images", true);
+    }
+}
+
+fn c02(s: &mut Search, rng: &mut Rng) {
+    let mut n = 0u64;
+    while s.time_left() && n < 2_000_000 {
+        n += 1;
+        match rng.below(10) {
+            0 | 1 => {
+                let sh = if rng.chance(1, 2) { format!("poly {}", 3 + rng.below(62)) } else {
+                    let k = 3 + rng.usize(10);
+                    format!("radial {} {}", k, (0..k).map(|_| fhex(rng.range(0.2, 2.0))).collect::<Vec<_>>().join(" "))
+                };
+                let req = format!("oracle c02_area {}", sh);
+                s.class("polygon-area");
+                s.run("Area.shoelace", &req, "c02_polygon", "polygon area is not the area of its outline", true);
+            }
+            2..=5 => {
+                // trimers over the CLI parameter space, stratified by overlap topology
+                let (r, a, d) = match rng.below(5) {
+                    0 => (0.637556, 120.0, 1.0),
+                    1 => (rng.range(0.05, 0.6), rng.range(0.0, 360.0), rng.range(0.0, 0.4)),   // small discs inside the central one
+                    2 => (rng.range(0.3, 2.0), rng.range(0.0, 60.0), rng.range(0.3, 1.5)),     // outer discs overlapping each other
+                    3 => (rng.range(0.1, 1.0), rng.range(90.0, 270.0), rng.range(1.0, 3.0)),   // chain / disjoint
+                    _ => (rng.range(0.01, 2.0), rng.range(0.0, 360.0), rng.range(0.0, 3.0)),
+                };
+                let sh = format!("trimer {} {} {}", fhex(r), fhex(a), fhex(d));
+                let cls = crate::exec::exec_line(&format!("oracle c02_classify {}", sh));
+                let triple = cls.contains("triple");
+                let req = format!("oracle c02_area {}", sh);
+                s.class(if triple { "trimer-triple-overlap" } else { "trimer" });
+                s.run("Area.discUnion", &req, if triple { "c02_triple_overlap" } else { "c02_trimer" }, "disc-union area is not the area of the union", true);
+            }
+            6 => {
+                let req = "oracle c02_area circle".to_string();
+                s.class("circle");
+                s.run("Area.discUnion", &req, "c02_circle", "circle area", false);
+            }
+            7 | 8 => {
+                let st = gen_hard_state_adversarial(rng);
+                let triple = st.contains(" trimer ") && {
+                    let t: Vec<&str> = st.split(' ').collect();
+                    let i = t.iter().position(|x| *x == "trimer").unwrap();
+                    crate::exec::exec_line(&format!("oracle c02_classify trimer {} {} {}", t[i + 1], t[i + 2], t[i + 3])).contains("triple")
+                };
+                let req = format!("oracle c02_score {}", st);
+                s.class("state-score");
+                s.run("Score.fraction", &req, if triple { "c02_triple_overlap" } else { "c02_score" }, "score is not the packing fraction in (0,1]", true);
+            }
+            _ => {
+                let mut cfg: Vec<String> = crate::gen::gen_cfg_small(rng).split(' ').map(|x| x.to_string()).collect();
+                cfg[0] = format!("{}", *rng.pick(&[100u64, 200, 400]));
+                cfg[1] = "50".to_string();
+                let st = gen_hard_state_adversarial(rng);
+                if st.contains(" trimer ") {
+                    continue;
+                }
+                let req = format!("oracle after_opt score {} crystal {}", cfg.join(" "), st);
+                s.class("score-after-optimisation");
+                s.run("Score.fraction", &req, "c02_score", "score is not the packing fraction in (0,1]", true);
+            }
+        }
+    }
+}
+
+fn c04(s: &mut Search, rng: &mut Rng) {
+    let mut n = 0u64;
+    while s.time_left() && n < 2_000_000 {
+        n += 1;
+        if n % 6 == 0 {
+            let req = format!("oracle after_opt symmetry {} crystal {}", crate::gen::gen_cfg_small(rng), crate::gen::gen_state_desc(rng, true));
+            s.class("after-optimisation");
+            s.run("Groups.mapsOntoItself", &req, "c04_symmetry", "the crystal does not have the symmetry of its group", true);
+            continue;
+        }
+        let dense = rng.below(2) == 0;
+        let req = format!("oracle c04_symmetry {}", crate::gen::gen_state_desc(rng, dense));
+        s.class("state");
+        s.run("Groups.mapsOntoItself", &req, "c04_symmetry", "the crystal does not have the symmetry of its group", true);
     }
 }
